@@ -64,6 +64,12 @@ def run(ctx):
         # emptied / all-accepting classes (every range reversed), each as str and as bytes (index parity below)
         for bp in ['[!b-a]', '[^z-a]x', '[!9-0z-a]', 'a[!c-b]c', '@([!b-a]|x)', '[b-a]', '[!b-ac]', '[z-a9-0]', '!([^b-a])', '[!b-a]/[^z-a]']:
             rawpats += [bp, bp]
+        # bracket expressions built from the pieces the scanner treats specially: ranges (valid, reversed, sharing a hyphen),
+        # stray hyphens, escaped members - `\/` and `\\` among them, which in path mode end the bracket -, classes, operators
+        btoks = ['a', 'b', 'z', '-', 'b-a', 'z-a', '9-0', 'a-b', '0-9', '!', '^', '\\/', '/', '\\-', '\\]', '\\\\', '[:alpha:]', '[:digit:]', '*', '|', '&&', '~~', '--', '[', '.', '#']
+        for _ in range(500 if ctx.quick else 5000):
+            body = ''.join(rng.choice(btoks) for _ in range(rng.randint(1, 5)))
+            rawpats.append(rng.choice(['', '', 'a', '*', '@(', '+(a|', 'x/', '!(']) + '[' + rng.choice(['', '', '!', '^']) + body + ']' + rng.choice(['', '', 'b', '*', ')', '/y', '|x)']))
         for _ in range(60 if ctx.quick else 600):
             rawpats.append(''.join(rng.choice(['\\', 'U', 'u', 'x', 'N', '{', '}', 'f', '8', '0', '1', 'a', '/', '*']) for _ in range(rng.randint(2, 14))))
         pats = rawpats + pats
